@@ -7,6 +7,7 @@ import SMV.Props.RefineData
 import SMV.Props.C13Complete
 import SMV.Props.RefineReply
 import SMV.Props.EndToEnd
+import SMV.Props.RefineDataW
 namespace SMV.Witness
 open SMV
 
@@ -184,6 +185,50 @@ example : (RefineData.srun exM A (A, some 0)
   decide
 example : RefineData.WriteFree envAllow := by
   intro h c; unfold envAllow; cases c.kind <;> rfl
+
+/-! a second, small machine whose *after* callback writes the data of the state it enters: the hypotheses of
+    `cell_refines_w` hold of it, and the abstract cell shows the write -/
+
+def back : Name := [Ch.lo 1, Ch.lo 10]
+def exEvents2 : List Event :=
+  [ { name := go, transitions := [ { sources := [A], target := B, before := [b1] } ] },
+    { name := back, transitions := [ { sources := [B], target := A, after := [a1] } ] } ]
+def exM2 : Machine :=
+  { name := M, initial := A, context := none, states := [A, B],
+    storage := [⟨A, storageFieldIdent A, ["u32"]⟩],
+    hierarchy := {}, events := exEvents2, asyncMode := false, dynamicMode := true,
+    graph := buildGraph {} [A, B] exEvents2 }
+theorem ex2_validates : exM2.validate = .ok () := by
+  have h : isOk exM2.validate = true := by decide
+  cases hp : exM2.validate with
+  | ok u => rfl
+  | error e => rw [hp] at h; cases h
+example : exM2.GraphBuilt := rfl
+example : exM2.PascalInj := by unfold Machine.PascalInj; decide
+example : exM2.FieldsNodup := by unfold Machine.FieldsNodup; decide
+example : specA ∈ exM2.storage := by decide
+/-- callbacks: `b1` (a *before* callback of `go`) writes 3 into `A`'s field, `a1` (an *after* callback of `back`)
+    writes 9 into it -/
+def ωex : Name → Option (Name × Nat) := fun n =>
+  if n == b1 then some (specA.field, 3) else if n == a1 then some (specA.field, 9) else none
+def envWrites : Env := fun _ c =>
+  { val := match c.kind with
+      | .cond => .bool true
+      | .aroundBefore | .aroundAfter => .proceed
+      | .before | .after => .unit,
+    write := ωex c.name }
+example : RefineData.Writes envWrites ωex := fun _ _ => rfl
+example : Permissive envWrites := by
+  intro h c; unfold envWrites; refine ⟨?_, ?_, ?_, ?_⟩ <;> intro hk <;> simp [hk]
+example : CondsAnswer envWrites (fun _ => true) := by
+  intro h c hk; simp [envWrites, hk]
+/-- set 5 in `A`; `go` (its before callback writes 3 into the machine that is consumed — never seen); the cell is
+    gone in `B`; `back` enters `A`: `Default`, then the after callback's 9; an in-place write; a read -/
+example : (RefineData.srunW exM2 A specA.field (A, some 0)
+    [.set 5, .read, .handle envWrites (fun _ => true) ωex exEvents2[0] none, .read,
+     .handle envWrites (fun _ => true) ωex exEvents2[1] none, .read, .write 4, .read]).2 =
+    [.stored true, .val (some 5), .fired true, .val none, .fired true, .val (some 9), .unit, .val (some 4)] := by
+  decide
 
 open Refine in
 /-- `refines_spec` instantiated end to end on the concrete machine: a new wrapper, `go` (accepted: lands on
